@@ -649,7 +649,7 @@ theorem dispatch_ignore (word : Str) (hb : Bool) (c : ClsDesc) (h : dispatch wor
 abbrev niq : Str → Bool → Bool := fun s _ => noIgnoreLine s
 
 /-- the C02 instance of the hereditary specification -/
-theorem hspec_legal : HSpec niq (fun l => legalLine l = true) where
+theorem hspec_legal : HSpec niq (fun l => legalLine l = true) (fun _ => True) where
   nonblank := by
     intro s _ h
     simp only [niq] at h
@@ -658,10 +658,10 @@ theorem hspec_legal : HSpec niq (fun l => legalLine l = true) where
     · cases h
     · rename_i heq; rw [heq]; simp
   emit := by
-    intro ctx content word arg block cl _ hsplit hd _ _ line st name items st' hpre a ha st2 rc hrc
+    intro ctx content word arg block cl _ _ hsplit hd _ _ line st name items st' hpre a ha st2 rc hrc
     exact emit_legal ctx content word arg block cl hsplit hd line st name items st' hpre a ha st2 rc hrc
   blockDone := by
-    intro ctx content word arg block cl hq hsplit hd hblk line st o hpre l hl
+    intro ctx content word arg block cl _ hq hsplit hd hblk line st o hpre l hl
     rcases blockPre_done_out _ _ _ _ _ _ _ _ _ hpre with h | h | ⟨ce, h⟩
     · rw [h] at hl; cases hl
     · exfalso
